@@ -61,7 +61,7 @@ def syncChunks (s : St) : St :=
       { s with cidx := { s.cidx with chunks := kept } }
     else s
   -- a KNOWN entry is never filled: `lightFill` reads the two records of an entry without hull (`MaxTs ≤ 0`) again, but the
-  -- second `apply` puts the known entry back (finding #63); the proposed repair fills the entries that account for no record
+  -- second `apply` puts the known entry back (finding #86); the proposed repair fills the entries that account for no record
   let unknown := (List.range s.cks.size).filter (fun i =>
       match CIndex.findChk s.cidx ((s.cks[i]!).id / 10) with
       | none => true
